@@ -258,6 +258,46 @@ def check_cases(cases, R, tag0=0):
         raise SystemExit('model driver answered %d lines for %d' % (len(out), len(flat)))
     for k, (c, im, ls) in enumerate(zip(cases, impls, lines)):
         check_case(c, R, tag0 + k, im, ls, out[3 * k:3 * k + 3])
+        check_order_independence(c, im, R)
+
+
+def check_order_independence(case, impl, R):
+    """Props.C19 compute_time_step_array_order_independent / hmin_multiset_only
+    evaluated on the implementation: the same arrays handed over in another
+    order, and the same particles with each array's rows reversed, must give
+    the very same step (min/max are exact, so the comparison is bit-exact)."""
+    arrs = case['arrays']
+    if len(arrs) < 2 and not any(len(a['tag']) > 1 for a in arrs):
+        return
+    variants = []
+    if len(arrs) >= 2:
+        variants.append(('arrays-reversed', list(reversed(arrs))))
+        variants.append(('arrays-rotated', arrs[1:] + arrs[:1]))
+    rev = []
+    for a in arrs:
+        # `build` needs real particles first (the constructor aligns before
+        # the extra properties are filled in): reverse the real and the ghost
+        # segment separately, tags stay as they are
+        nr = sum(1 for t in a['tag'] if t == 0)
+
+        def seg(v):
+            return list(reversed(v[:nr])) + list(reversed(v[nr:]))
+        b = dict(a)
+        b['h'] = seg(a['h'])
+        b['props'] = {k: seg(v) for k, v in a['props'].items()}
+        rev.append(b)
+    variants.append(('rows-reversed', rev))
+    want = [canon(impl['cts']), canon(impl['sol']), canon(impl['hmin'])]
+    for nm, va in variants:
+        c2 = dict(case)
+        c2['arrays'] = va
+        im2 = run_impl(c2)
+        got = [canon(im2['cts']), canon(im2['sol']), canon(im2['hmin'])]
+        R.count('order-variant:' + nm)
+        if got != want:
+            R.prop_fail('C19:order-dependent:' + nm, case,
+                        'same particles, %s: (cts, sol, hmin) = %r' % (nm, want),
+                        repr(got))
 
 
 def check_case(case, R, tag, impl, lines, mod):
